@@ -572,3 +572,21 @@ func (r *TypeReg) sortsKnown(line string) bool {
 	}
 	return true
 }
+
+// nilType stands in for a missing Go type (a contract expression that failed to resolve): every type
+// switch on it falls through to the "unsupported" arm instead of dereferencing nil.
+var nilType types.Type = types.Typ[types.Invalid]
+
+func unaliasNil(t types.Type) types.Type {
+	if t == nil {
+		return nilType
+	}
+	return types.Unalias(t)
+}
+
+func underNil(t types.Type) types.Type {
+	if t == nil {
+		return nilType
+	}
+	return types.Unalias(t).Underlying()
+}
